@@ -81,6 +81,7 @@ def main(tier_):
     allc = [dict(c, trace=False) for c in sc + sc2]
     allc.sort(key=lambda c: json.dumps(c["feat"]))
     res = run_pv(allc, jobs=12, tag="C04m")
+    res, _ = rerun_noisy(allc, res, tag="C04mr")
     pair = collections.defaultdict(dict)
     for c, r in zip(allc, res):
         first_new = max(i["id"] for i in r["init"]["inodes"]) + 1
@@ -99,6 +100,7 @@ def main(tier_):
     cases, idx, ncombos = lattice_cases(rnd, quick)
     order = sorted(range(len(cases)), key=lambda i: idx[i][1])
     res = run_pv([cases[i] for i in order], jobs=12, tag="C04l")
+    res, _ = rerun_noisy([cases[i] for i in order], res, tag="C04lr")
     by = collections.defaultdict(dict)
     for i, r in zip(order, res):
         fl, bname = idx[i]
